@@ -7,7 +7,7 @@ EXPLANATION = ('The real BaseDateParser.parse -> parse_basic_regex_match -> matc
 ASSUMPTIONS = ['regex match stubbed (FakeRegex/FakeMatch): which layouts the DateExtractor patterns accept is not decided here',
                'month/day name tables replaced by one-entry tables {"M": m}, {"D": d}; the real tables are audited in O6.5',
                'datedelta is not reached on this path']
-OUTSIDE = ['regex languages of DateExtractor1..A and their dispatch (class G/L of DESIGN §3)', 'two-digit years', 'non-English cultures']
+OUTSIDE = ['which pattern of the list wins and how its groups decompose a string (the language layer O6.1 shows a full match exists; decomposition is only validated on solver-generated members)', 'two-digit years', 'Dutch, Chinese, Japanese date patterns']
 B = 'recognizers_date_time.date_time.'
 ENC = [B + 'base_date:BaseDateParser.parse', B + 'base_date:BaseDateParser.parse_basic_regex_match', B + 'base_date:BaseDateParser.match_to_date',
        B + 'utilities:DateUtils.generate_dates', B + 'utilities:DateUtils.safe_create_from_value', B + 'utilities:DateUtils.is_valid_date',
@@ -26,4 +26,15 @@ def obligations(tier):
     obs.append(Ob('O6.5-tables', 'fn', 'harness.tables:audit_date_tables', timeout=t,
                   descr='audit (concrete, not a solver verdict): English month_of_year / day_of_month / day_of_week tables against calendar',
                   encodes=[]))
+    L = 'harness.layouts:'
+    dl = [{'kind': 'date', 'culture': 'en-us', 'layout': l} for l in ('iso', 'slash', 'dash', 'month-d-y', 'month-dth-y', 'd-month-y', 'dth-of-month-y')]
+    dl += [{'kind': 'date', 'culture': c, 'layout': l} for c in ('es-es', 'fr-fr', 'pt-br', 'de-de', 'it-it') for l in ('iso', 'slash', 'dash')]
+    obs.append(Ob('O6.1-language', 'fn', L + 'inclusion', slices=dl, timeout=t,
+                  descr='every date of a supported layout (ISO, numeric with slashes/dashes in the culture\'s day/month order, month name + day [+ ordinal suffix] + year) is fully matched by one of the date patterns',
+                  bounds='years 1900..2099, months 1..12, days 1..31, unbounded over the layout language; English 7 layouts, es/fr/pt/de/it numeric layouts (Dutch patterns are not parseable by the translator)',
+                  engine='z3 regular-expression solver on an over-approximating translation of the real pattern sources (assertions dropped)',
+                  encodes=['recognizers_date_time.date_time.english.date_extractor_config:EnglishDateExtractorConfiguration.__init__']))
+    obs.append(Ob('O6.1-api-members', 'fn', L + 'api_members', slices=[dict(x, n=12 if tier == 'quick' else 80) for x in dl], timeout=t,
+                  descr='composition check: solver-generated dates of each layout resolve through recognize_datetime to exactly that date (value = TIMEX)',
+                  bounds='12 (thorough 80) z3 models per (culture, layout); validation of the composition, not a universal verdict'))
     return obs
